@@ -12,6 +12,8 @@ from typing import List
 
 from semantiva.context_processors import ContextType
 from semantiva.data_io import DataSource, PayloadSource
+from semantiva.data_processors import DataOperation
+from semantiva.data_types import BaseDataType
 from semantiva.examples.test_utils import (
     FloatDataCollection,
     FloatDataType,
@@ -57,6 +59,10 @@ EXC_OBJECTS = {
     "runtime": RuntimeError("verif injected RuntimeError"),
     "keyboard": KeyboardInterrupt("verif injected KeyboardInterrupt"),
     "abort": VVerifAbort("verif injected BaseException"),
+    # message-less exception objects (str(exc) == "")
+    "value_empty": ValueError(),
+    "keyboard_empty": KeyboardInterrupt(),
+    "assert_empty": AssertionError(),
 }
 
 
@@ -65,6 +71,59 @@ class VRaiseOp(FloatOperation):
 
     def _process_logic(self, data, kind: str = "value"):
         raise EXC_OBJECTS[kind]
+
+
+class VInPlaceScaleOp(FloatOperation):
+    """Scales its payload IN PLACE and returns the very same object (legal, but unusual)."""
+
+    def _process_logic(self, data, k: float = 1.5):
+        data.data = data.data * k
+        if not isinstance(data.data, float):
+            raise TypeError("Data must be a float")
+        return data
+
+
+class VNoneDefaultProbe(FloatProbe):
+    """A probe with a parameter whose declared default is literally None."""
+
+    def _process_logic(self, data, tag=None):
+        return {"tag": tag, "d": data.data}
+
+
+class VLazyFloatStream(BaseDataType):
+    """A lazy data type: wraps a one-shot iterator of floats."""
+
+    def validate(self, data):
+        if not hasattr(data, "__next__"):
+            raise TypeError("VLazyFloatStream wraps an iterator")
+        return True
+
+    def __repr__(self):
+        return "VLazyFloatStream(<lazy>)"
+
+    __str__ = __repr__
+
+
+class VStreamSumOp(DataOperation):
+    """Drains a VLazyFloatStream and returns the sum as FloatDataType."""
+
+    @classmethod
+    def input_data_type(cls):
+        return VLazyFloatStream
+
+    @classmethod
+    def output_data_type(cls):
+        return FloatDataType
+
+    def _process_logic(self, data):
+        return FloatDataType(float(sum(data.data)))
+
+
+class VIterSumOp(FloatOperation):
+    """Adds the sum of ``items`` (any iterable, possibly a one-shot iterator taken from the context) to the data."""
+
+    def _process_logic(self, data, items):
+        return FloatDataType(data.data + float(sum(items)))
 
 
 class VPayloadSourceWithKeys(PayloadSource):
